@@ -189,6 +189,9 @@ def run_model_case(H, form_kind, n_extra, ickind, tvar_unused=None, hsrc='model'
     a.AddVariable('y', 'state 2', '.5*x + 2.5')
     a.AddVariable('u', 'decorative', '2*x + 1')
     a.AddVariable('LAG_x', 'lag', 'x(k-1)')
+    if hsrc == 'respecified':
+        # a default path is declared first (the way a model-building routine would), the user's path afterwards: the last one counts
+        a.SetExogenous('g', '[20.,]*%d' % (H + 5))
     if form_kind == 'str':
         a.SetExogenous('g', value)
     else:
@@ -336,6 +339,13 @@ def run_unit(unit, tier):
                 for ic in ('none', 'sector', 'model', 'lag', 'precise', 'third', 'big'):
                     dig.add(('model', H, form_kind, extra, ic))
                     outcome, viols = run_model_case(H, form_kind, extra, ic)
+                    if ic in ('none', 'sector') and extra >= 0:
+                        dig.add(('model-respecified', H, form_kind, extra, ic))
+                        o2, v2 = run_model_case(H, form_kind, extra, ic, hsrc='respecified')
+                        res['evaluations'] += 1
+                        res['nontrivial'] += 1
+                        core.bump(res['outcomes'], 'model:respecified:' + o2)
+                        res['violations'].extend(v2[:2])
                     if H >= 1 and ic in ('none', 'lag') and extra >= 0:
                         dig.add(('model-solver-horizon', H, form_kind, extra, ic))
                         o2, v2 = run_model_case(H, form_kind, extra, ic, hsrc='solver')
